@@ -87,6 +87,10 @@ class StochasticSolver(ABC):
             Step size used.
         """
 
+    def reset(self):
+        """Forget everything accumulated by an earlier solve."""
+        self._nfails = 0
+
     @abstractmethod
     def set_failed_epoch(self):
         """Set internal state on failed epoch."""
@@ -135,7 +139,7 @@ class StochasticSolver(ABC):
 
         # Setup loop variables
         model = initial_model.copy()
-        self._nfails = 0
+        self.reset()
 
         best_model = model.copy()
         f_est_prev = f_est
@@ -318,6 +322,14 @@ class Adam(StochasticSolver):
         self._v: List[np.ndarray] = []
         self._v_prev: List[np.ndarray] = []
 
+    def reset(self):  # noqa: D102
+        super().reset()
+        self._total_iterations = 0
+        self._m = []
+        self._m_prev = []
+        self._v = []
+        self._v_prev = []
+
     def set_failed_epoch(  # noqa: D102
         self,
     ):
@@ -385,6 +397,10 @@ class Adagrad(StochasticSolver):
             max_iters,
             printitn,
         )
+        self._gnormsum = 0.0
+
+    def reset(self):  # noqa: D102
+        super().reset()
         self._gnormsum = 0.0
 
     def set_failed_epoch(  # noqa: D102
